@@ -26,6 +26,10 @@ fn observe(set: &HpoSet, obs: &Value, at: &str, d: &mut Vec<String>) {
     if got != want {
         d.push(format!("{at}: iter() gives {:?}, expected {:?}", got, want));
     }
+    let by_ref: Vec<u32> = (&*set).into_iter().map(|t| t.id().as_u32()).collect();
+    if by_ref != want {
+        d.push(format!("{at}: `for t in &set` gives {:?}, expected {:?}", by_ref, want));
+    }
     if set.len() != want.len() || set.is_empty() != want.is_empty() {
         d.push(format!("{at}: len() = {}, is_empty() = {}, expected {} members", set.len(), set.is_empty(), want.len()));
     }
